@@ -113,7 +113,7 @@ func VerifC15_CloseWithWaitingAnnounce() {
 	chainA := []cid.Cid{vCid(11)}
 	chainB := []cid.Cid{vCid(21)}
 	v := newLiveSub(chainA, 1) // at most one announce-triggered sync at a time
-	pidB := peer.ID("publisher-2")
+	pidB := vPeerID("publisher-2")
 	syB := v.addPublisher(pidB, chainB)
 	v.sy.yield, syB.yield = true, true
 	// two publishers announce: one sync runs, the other waits for the slot
